@@ -29,7 +29,7 @@ PROPS = {
     "C06": {
         "level": "exploration", "exhaustive": True,
         "lanes": LANES_STD,
-        "rule": "bounded-exhaustive: every shape {(0,0)} u [1..N]^2 x capacity class {exact, reserve_exact of the needed amount, spare, partial = spare capacity smaller than the inserted line} x axis x element type {Kv(Copy), Tok(owning, ledger), Zst} is one case; inside it every index 0..=dim+1 and usize::MAX, every supplied length 0..=dim+1 (0..=N+1 on empty arrays), insert_* and push_* forms, four honest iterator kinds. distinct = (axis, shape, index, length, capacity class, element type, form, accepted|rejected); non-trivial = an accepted call that inserted >=1 element, or a rejection on a non-empty array, and the post-state passed shape+model+ledger checks.",
+        "rule": "bounded-exhaustive: every shape {(0,0)} u [1..N]^2 x capacity class {exact, reserve_exact of the needed amount, spare, partial = spare capacity smaller than the inserted line} x axis x element type {Kv(Copy), Tok(owning, ledger), Zst} is one case; inside it every index 0..=dim+1 and usize::MAX, every supplied length 0..=dim+1 (0..=N+1 on empty arrays), insert_* and push_* forms, four honest iterator kinds. distinct = (axis, shape, index, length, capacity class, element type, form, accepted|rejected); non-trivial = an accepted call that inserted >=1 element, or a rejection on a non-empty array, and the post-state passed shape+model+ledger checks. Plus giant arrays of zero-sized elements (dimensions such as (2^32+1)x(2^32-1), 3x(usize::MAX/3), usize::MAXx1), where sums and products of REAL in-range dimensions approach usize::MAX: judged by sizes, lengths and the must-panic rule.",
         "must_observe": ["accepted", "rejected"],
         "text": "Bounded-exhaustive runtime exploration: every insert_row/insert_col/push_* call over all shapes up to NxN, all indices and lengths in and out of range, three element types and three capacity classes is executed against the real crate and compared cell-for-cell (by element identity) with a rows-of-cells model; the same executions run under debug assertions/ub_checks, release, AddressSanitizer, Miri and (thorough) memcheck.",
         "design_ref": "DESIGN.md 5 (C06)", "technique": "runtime monitoring: reference-model oracle + drop ledger over exhaustive small-scope executions, under ASan/Miri/memcheck/ub_checks",
@@ -37,7 +37,7 @@ PROPS = {
     "C07": {
         "level": "exploration", "exhaustive": True,
         "lanes": LANES_STD,
-        "rule": "bounded-exhaustive: every shape x axis x capacity class x element type is one case; inside it every index 0..dim (plus dim, dim+1, usize::MAX which must be rejected, and pop on empty), remove_* and pop_* forms, every (front,back) split with front+back<=len in three interleavings (front-first, back-first, alternating) with len()/size_hint() probed after every take, then drop. distinct = (axis, shape, index, front, back, interleaving, element type, form); non-trivial = the drain and the post-drop array passed item/len/shape/model/ledger checks.",
+        "rule": "bounded-exhaustive: every shape x axis x capacity class x element type is one case; inside it every index 0..dim (plus dim, dim+1, usize::MAX which must be rejected, and pop on empty), remove_* and pop_* forms, every (front,back) split with front+back<=len in three interleavings (front-first, back-first, alternating) with len()/size_hint() probed after every take, then drop. distinct = (axis, shape, index, front, back, interleaving, element type, form); non-trivial = the drain and the post-drop array passed item/len/shape/model/ledger checks. Plus giant arrays of zero-sized elements (dimensions such as (2^32+1)x(2^32-1), 3x(usize::MAX/3), usize::MAXx1), where sums and products of REAL in-range dimensions approach usize::MAX: judged by sizes, lengths and the must-panic rule.",
         "must_observe": ["drain_items", "rejected"],
         "text": "Bounded-exhaustive runtime exploration of remove_row/remove_col/pop_*: every index, every drain consumption split and interleaving, compared item-by-item with an ideal sequence and afterwards cell-for-cell with the model; the ledger shows each element owned exactly once; same executions under the sanitizer lanes.",
         "design_ref": "DESIGN.md 5 (C07)", "technique": "runtime monitoring: ideal-sequence + reference-model oracle, drop ledger, ASan/Miri/memcheck/ub_checks",
@@ -69,7 +69,7 @@ PROPS = {
     "C13": {
         "level": "exploration", "exhaustive": True,
         "lanes": LANES_STD,
-        "rule": "case = (receiver shape up to NxN incl. empty, implementor placement {TooDee, TooDeeViewMut interior/edge/full windows, nested view, view over a slice, third-party Thin wrapper over owned and over view (trait defaults incl. default swap_rows)}); inside: fill, and swap / swap_rows / swap_cols / row_pair_mut over ALL index pairs from 0..=dim+1 u {usize::MAX} (equal, reversed, one or both out of range), on Copy and owning elements. Oracle: whole-parent model diff, (address,len) and order of row_pair_mut slices, must-panic rule. distinct = (implementor, shape, window, op+indices, accepted|rejected, element type).",
+        "rule": "case = (receiver shape up to NxN incl. empty, implementor placement {TooDee, TooDeeViewMut interior/edge/full windows, nested view, view over a slice, third-party Thin wrapper over owned and over view (trait defaults incl. default swap_rows)}); inside: fill, and swap / swap_rows / swap_cols / row_pair_mut over ALL index pairs from 0..=dim+1 u {usize::MAX} (equal, reversed, one or both out of range), on Copy and owning elements. Oracle: whole-parent model diff, (address,len) and order of row_pair_mut slices, must-panic rule. distinct = (implementor, shape, window, op+indices, accepted|rejected, element type). Plus giant arrays of zero-sized elements (dimensions such as (2^32+1)x(2^32-1), 3x(usize::MAX/3), usize::MAXx1), where sums and products of REAL in-range dimensions approach usize::MAX: judged by sizes, lengths and the must-panic rule.",
         "must_observe": ["accepted", "rejected", "addresses_compared"],
         "text": "Bounded-exhaustive runtime exploration of the swap/fill primitives on all three kinds of implementor (owned overrides, view overrides, trait defaults via a third-party wrapper): every index pair in and out of range, compared with the model over the whole parent buffer.",
         "design_ref": "DESIGN.md 5 (C13)", "technique": "runtime monitoring: reference-model diff + must-panic rule over exhaustive index pairs, sanitizer lanes",
@@ -120,7 +120,7 @@ PROPS.update({
     "C02": {
         "level": "exploration", "exhaustive": True,
         "lanes": LANES_STD,
-        "rule": "case = receiver (owned array of every shape up to NxN; TooDeeView / TooDeeViewMut at every window of every parent up to MxM; views built over a longer slice); inside it every coordinate (c,r) with c,r from {0..dim+2, usize::MAX, usize::MAX-1, usize::MAX/2, usize::MAX/2+1, 2^32, 2^63, rows whose stride product wraps to an in-range offset, columns whose sum wraps} is tried through every accessor form: x[(c,r)], x[r][c], x[r], col(c)[r], col(c).nth(r), rows().nth(r)[c], the IndexMut/col_mut forms, and (in range only) the unchecked getters. In range: all forms must yield the one expected address (parent base + (start.1+r)*stride + start.0+c; for owned arrays data()[r*num_cols+c]). Out of range: every checked form must panic and the buffer must be unchanged. Runs in overflow-checked (dbg) and overflow-unchecked (rel, asan) builds. distinct = receivers with >=1 cell that passed; coordinate classes reached are counted separately.",
+        "rule": "case = receiver (owned array of every shape up to NxN; TooDeeView / TooDeeViewMut at every window of every parent up to MxM; views built over a longer slice); inside it every coordinate (c,r) with c,r from {0..dim+2, usize::MAX, usize::MAX-1, usize::MAX/2, usize::MAX/2+1, 2^32, 2^63, rows whose stride product wraps to an in-range offset, columns whose sum wraps} is tried through every accessor form: x[(c,r)], x[r][c], x[r], col(c)[r], col(c).nth(r), rows().nth(r)[c], the IndexMut/col_mut forms, and (in range only) the unchecked getters. In range: all forms must yield the one expected address (parent base + (start.1+r)*stride + start.0+c; for owned arrays data()[r*num_cols+c]). Out of range: every checked form must panic and the buffer must be unchanged. Runs in overflow-checked (dbg) and overflow-unchecked (rel, asan) builds. distinct = receivers with >=1 cell that passed; coordinate classes reached are counted separately. Plus giant arrays of zero-sized elements (dimensions such as (2^32+1)x(2^32-1), 3x(usize::MAX/3), usize::MAXx1), where sums and products of REAL in-range dimensions approach usize::MAX: judged by sizes, lengths and the must-panic rule.",
         "must_observe": ["accessor_calls", "coord_classes"],
         "text": "Bounded-exhaustive runtime exploration of every checked accessor form on every receiver kind with in-range, just-out-of-range and wrap-provoking coordinates, in both overflow-checked and overflow-unchecked builds; judged by address identity and a must-panic rule.",
         "design_ref": "DESIGN.md 5 (C02)", "technique": "runtime monitoring: address-identity oracle + must-panic rule, debug and release builds, sanitizer lanes",
@@ -128,7 +128,7 @@ PROPS.update({
     "C03": {
         "level": "exploration", "exhaustive": True,
         "lanes": LANES_STD,
-        "rule": "depth 1: for every parent shape up to NxN and root kind {TooDee::view, TooDee::view_mut, TooDeeView::new(slice longer than needed).view, TooDeeViewMut::new(..).view / view_mut}, EVERY (start,end) with components in 0..=dim+1 (valid and invalid) plus huge coordinates; depth 2 and 3: every valid outer window chain x every innermost (start,end) pair, through the receiver chains V.V, M.V, M.M, V.V.V, M.V.V, M.M.V, M.M.M. Valid requests must succeed with size end-start (or (0,0)), every cell / rows() slice / col(c) item at the parent's address, and writes through view_mut must change exactly those root-buffer cells (whole buffer diffed; single-cell writes for small windows); invalid requests must panic. distinct = (depth, chain kind, parent shape, window path) that passed or was correctly rejected.",
+        "rule": "depth 1: for every parent shape up to NxN and root kind {TooDee::view, TooDee::view_mut, TooDeeView::new(slice longer than needed).view, TooDeeViewMut::new(..).view / view_mut}, EVERY (start,end) with components in 0..=dim+1 (valid and invalid) plus huge coordinates; depth 2 and 3: every valid outer window chain x every innermost (start,end) pair, through the receiver chains V.V, M.V, M.M, V.V.V, M.V.V, M.M.V, M.M.M. Valid requests must succeed with size end-start (or (0,0)), every cell / rows() slice / col(c) item at the parent's address, and writes through view_mut must change exactly those root-buffer cells (whole buffer diffed; single-cell writes for small windows); invalid requests must panic. distinct = (depth, chain kind, parent shape, window path) that passed or was correctly rejected. Plus giant arrays of zero-sized elements (dimensions such as (2^32+1)x(2^32-1), 3x(usize::MAX/3), usize::MAXx1), where sums and products of REAL in-range dimensions approach usize::MAX: judged by sizes, lengths and the must-panic rule.",
         "must_observe": ["addresses_compared", "rejected", "cells_written_through"],
         "text": "Bounded-exhaustive runtime exploration of view/view_mut: every start/end pair, zero-extent windows anywhere, nesting depth 1-3 through all receiver kinds; judged by address identity of every cell, whole-buffer write-through diff, and the must-panic rule; Miri and ub_checks observe the slice formation itself.",
         "design_ref": "DESIGN.md 5 (C03)", "technique": "runtime monitoring: address-identity oracle + write-through diff + must-panic rule, Miri/ub_checks on slice formation",
@@ -176,7 +176,7 @@ PROPS.update({
     "C20": {
         "level": "exploration", "exhaustive": True,
         "lanes": LANES_STD,
-        "rule": "constructors: every dimension pair over {0..N} u {usize::MAX, usize::MAX/2+1, 2^32, 2^32+1, 2^63} x buffer lengths {0, 1, prod-1, prod, prod+1, prod+7, the wrapped product} for from_vec, from_box (Kv, Tok, Zst), TooDeeView::new, TooDeeViewMut::new, and new/init on the same pairs (accepted products capped at 4096 cells): accepted results are compared with the model (dims, row-major cells: default / clone of the given value / the given buffer by identity; views by address), must-panic for overflow, misfit and exactly-one-zero dimension. From<view>/From<view_mut> for every window of every parent up to MxM (equal cells, fresh owners, parent untouched). Conversions Vec::from, Box::from, AsRef/AsMut, into_iter consumed (front,back) then dropped: cells row-major by identity, ledger exactly-once. clone(): equal, separate buffer, separate owners, mutating the clone leaves the original intact. Eq/Hash: ALL pairs of arrays with cells over {0,1} of up to K cells in every factorisation shape: a==b iff same dims and cells, a==b implies equal hashes; arrays with a NaN cell are unequal even to themselves. distinct = constructor (kind, dim classes, dims, buffer relation, element type, accepted|rejected), conversion, window and array-pair cases that passed.",
+        "rule": "constructors: every dimension pair over {0..N} u {usize::MAX, usize::MAX/2+1, 2^32, 2^32+1, 2^63} x buffer lengths {0, 1, prod-1, prod, prod+1, prod+7, the wrapped product} for from_vec, from_box (Kv, Tok, Zst), TooDeeView::new, TooDeeViewMut::new, and new/init on the same pairs (accepted products capped at 4096 cells): accepted results are compared with the model (dims, row-major cells: default / clone of the given value / the given buffer by identity; views by address), must-panic for overflow, misfit and exactly-one-zero dimension. From<view>/From<view_mut> for every window of every parent up to MxM (equal cells, fresh owners, parent untouched). Conversions Vec::from, Box::from, AsRef/AsMut, into_iter consumed (front,back) then dropped: cells row-major by identity, ledger exactly-once. clone(): equal, separate buffer, separate owners, mutating the clone leaves the original intact. Eq/Hash: ALL pairs of arrays with cells over {0,1} of up to K cells in every factorisation shape: a==b iff same dims and cells, a==b implies equal hashes; arrays with a NaN cell are unequal even to themselves. distinct = constructor (kind, dim classes, dims, buffer relation, element type, accepted|rejected), conversion, window and array-pair cases that passed. Plus giant arrays of zero-sized elements (dimensions such as (2^32+1)x(2^32-1), 3x(usize::MAX/3), usize::MAXx1), where sums and products of REAL in-range dimensions approach usize::MAX: judged by sizes, lengths and the must-panic rule.",
         "must_observe": ["accepted", "rejected", "eq_pairs"],
         "text": "Bounded-exhaustive runtime exploration of every constructor and conversion over small and overflow-provoking dimension pairs and buffer lengths, Copy / owning / zero-sized elements, plus an all-pairs Eq/Hash sweep; judged by the model, address identity, the ledger and the must-panic rule.",
         "design_ref": "DESIGN.md 5 (C20)", "technique": "runtime monitoring: reference model + must-panic rule + drop ledger over exhaustive dimension/buffer pairs, sanitizer lanes",
